@@ -7,6 +7,7 @@ use ebv_derivelib::{expand_attribute, expand_easy, interpret, Interp, Outcome};
 use crate::gen::*;
 use crate::model::*;
 use crate::runner::*;
+use crate::runner::sample_tape;
 use crate::tape::Tape;
 
 pub const RULE: &str = "the macro is a compiler, the domain is declarations. In-process engine (the macro's own source files compiled into the harness): random declarations — 3..24 variants, all six data types, ids of 1-8 bytes written in hex or decimal, \
@@ -572,7 +573,7 @@ fn stage_broken(i: &Input, c: &mut Case) -> Result<(), String> {
     Ok(())
 }
 
-pub const STAGES: &[Stage] = &[Stage { name: "valid_in_process", f: stage_valid }, Stage { name: "broken_in_process", f: stage_broken }];
+pub const STAGES: &[Stage] = &[Stage { name: "valid_in_process", f: stage_valid }, Stage { name: "broken_in_process", f: stage_broken }, STAGE_COMPILED, STAGE_REJECT];
 
 pub fn run(rc: &mut RunCtx) {
     rc.run_pt(STAGES[0], rc.pick(4_000, 150_000), (96, 300));
@@ -582,4 +583,166 @@ pub fn run(rc: &mut RunCtx) {
     for b in BREAKS {
         rc.require_label("broken_in_process", b, 10_000);
     }
+    // compiled engine
+    let batches = rc.pick(1u64, 8u64);
+    for b in 0..batches {
+        if rc.has_failure() {
+            break;
+        }
+        let seeds: Vec<u64> = (0..24u64).map(|k| rc.seed.wrapping_mul(7919).wrapping_add(b * 1000 + k)).collect();
+        rc.run_one(STAGE_COMPILED, Input::Args(seeds));
+    }
+    let rejects = rc.pick(2u64, 6u64);
+    for r in 0..rejects {
+        if rc.has_failure() {
+            break;
+        }
+        rc.run_one(STAGE_REJECT, Input::Args(vec![rc.seed.wrapping_mul(31).wrapping_add(r), r * 3 + 1, r]));
+    }
 }
+
+// ---------------------------------------------------------------------------------------------
+// compiled engine: the real proc-macros + rustc
+
+fn ty_code(t: Ty) -> u8 {
+    Ty::ALL.iter().position(|x| *x == t).unwrap() as u8
+}
+
+pub fn render_batch(decls: &[Decl]) -> String {
+    let mut s = String::from("// generated by ebv C18 — do not edit\n");
+    for (k, d) in decls.iter().enumerate() {
+        let mut d = d.clone();
+        d.name = "S".into();
+        let ids: BTreeMap<String, u64> = d.vars.iter().map(|v| (v.name.clone(), v.id)).collect();
+        s.push_str(&format!("pub mod d{} {{\n", k));
+        s.push_str("    #[allow(unused_imports, dead_code)]\n    pub mod a {\n        use ebml_iterable::specs::{ebml_specification, TagDataType};\n        #[ebml_specification]\n");
+        s.push_str(&render_attr(&d));
+        s.push_str("    }\n    #[allow(unused_imports, dead_code)]\n    pub mod e {\n        use ebml_iterable::specs::{easy_ebml, TagDataType};\n        easy_ebml! {\n");
+        s.push_str(&render_easy(&d));
+        s.push_str("        }\n    }\n");
+        s.push_str("    pub const TABLE: &[crate::Row] = &[\n");
+        for v in &d.vars {
+            let path: Vec<String> = v
+                .path
+                .iter()
+                .map(|p| match p {
+                    PP::Name(n) => format!("crate::P::Id({})", ids[n]),
+                    PP::Global(a, b) => format!("crate::P::G({:?}, {:?})", a, b),
+                })
+                .collect();
+            s.push_str(&format!("        crate::Row {{ name: \"{}\", id: {}, ty: {}, path: &[{}] }},\n", v.name, v.id, ty_code(v.ty), path.join(", ")));
+        }
+        s.push_str("    ];\n}\n");
+    }
+    s.push_str("pub fn run_all(out: &mut Vec<String>) {\n");
+    for k in 0..decls.len() {
+        s.push_str(&format!("    out.push(crate::run_one::<d{k}::a::S>({k}, \"attribute\", d{k}::TABLE));\n    out.push(crate::run_one::<d{k}::e::S>({k}, \"easy_ebml\", d{k}::TABLE));\n", k = k));
+    }
+    s.push_str("}\n");
+    s
+}
+
+fn harness_dir() -> std::path::PathBuf {
+    let root = std::env::var("VERIF_ROOT").map(std::path::PathBuf::from).unwrap_or_else(|_| std::path::PathBuf::from("/verif"));
+    root.join("harness")
+}
+
+/// build the batch crate with the given generated source; Ok(stdout of the run) or Err(compiler output)
+pub fn build_and_run_batch(src: &str, run: bool) -> Result<String, String> {
+    let dir = harness_dir();
+    let gen_dir = dir.join("target").join("batch-gen");
+    std::fs::create_dir_all(&gen_dir).map_err(|e| e.to_string())?;
+    let file = gen_dir.join(format!("generated-{}.rs", std::process::id()));
+    std::fs::write(&file, src).map_err(|e| e.to_string())?;
+    let out = std::process::Command::new("cargo")
+        .args(["build", "--profile", "verif", "-p", "ebv-batch", "--offline"])
+        .current_dir(&dir)
+        .env("EBV_BATCH_SRC", &file)
+        .env("CARGO_NET_OFFLINE", "true")
+        .output()
+        .map_err(|e| format!("cannot run cargo: {}", e))?;
+    let _ = std::fs::remove_file(&file);
+    if !out.status.success() {
+        return Err(String::from_utf8_lossy(&out.stderr).to_string());
+    }
+    if !run {
+        return Ok(String::new());
+    }
+    let bin = dir.join("target").join("verif").join("ebv-batch");
+    let r = std::process::Command::new(bin).output().map_err(|e| format!("cannot run the batch binary: {}", e))?;
+    let so = String::from_utf8_lossy(&r.stdout).to_string();
+    if !r.status.success() || !so.contains("BATCH DONE") {
+        return Err(format!("batch binary failed: status {:?}\n{}\n{}", r.status, so, String::from_utf8_lossy(&r.stderr)));
+    }
+    Ok(so)
+}
+
+fn decl_from_seed(seed: u64) -> Decl {
+    let tape = sample_tape(seed, 220);
+    let mut t = Tape::new(&tape);
+    gen_decl(&mut t).0
+}
+
+fn stage_compiled(i: &Input, c: &mut Case) -> Result<(), String> {
+    let decls: Vec<Decl> = i.args().iter().map(|s| decl_from_seed(*s)).collect();
+    let src = render_batch(&decls);
+    c.sample_with(|| format!("{} declarations through #[ebml_specification] and easy_ebml!, compiled by rustc; first one:\n{}", decls.len(), render_easy(&decls[0])));
+    let out = build_and_run_batch(&src, true).map_err(|e| {
+        let tail: String = e.lines().filter(|l| l.contains("error") || l.starts_with("  ") || l.starts_with(" -->")).take(40).collect::<Vec<_>>().join("\n");
+        format!("a batch of well-formed declarations does not compile / run:\n{}", tail)
+    })?;
+    let mut ok = 0u64;
+    let mut checks = 0u64;
+    for line in out.lines() {
+        if let Some(rest) = line.strip_prefix("DECL ") {
+            let parts: Vec<&str> = rest.splitn(4, ' ').collect();
+            if parts.len() >= 4 && parts[2] == "OK" {
+                ok += 1;
+                checks += parts[3].trim().parse::<u64>().unwrap_or(0);
+            } else if parts.len() >= 4 {
+                let k: usize = parts[0].parse().unwrap_or(0);
+                return Err(format!("compiled declaration #{} ({} front end) misbehaves: {}\n{}", k, parts[1], parts[3], render_easy(&decls[k.min(decls.len() - 1)])));
+            }
+        }
+    }
+    if ok != 2 * decls.len() as u64 {
+        return Err(format!("expected {} results from the batch, got {}", 2 * decls.len(), ok));
+    }
+    c.units = ok;
+    c.nontrivial_units = ok;
+    c.checks = checks;
+    c.key(&src);
+    Ok(())
+}
+
+const BOGUS: [&str; 3] = ["bogus", "idd(5)", "doc_paths(V0)"];
+
+fn stage_rustc_reject(i: &Input, c: &mut Case) -> Result<(), String> {
+    let a = i.args();
+    let mut d = decl_from_seed(a[0]);
+    let k = (a[1] as usize) % d.vars.len();
+    let attr = BOGUS[(a[2] as usize) % BOGUS.len()];
+    d.vars[k].extra_attr = Some(attr.to_string());
+    d.name = "S".into();
+    let src = format!(
+        "pub mod d0 {{\n    #[allow(unused_imports, dead_code)]\n    pub mod a {{\n        use ebml_iterable::specs::{{ebml_specification, TagDataType}};\n        #[ebml_specification]\n{}    }}\n}}\npub fn run_all(_out: &mut Vec<String>) {{}}\n",
+        render_attr(&d)
+    );
+    c.nontrivial = true;
+    c.key(&src);
+    c.sample_with(|| format!("unknown attribute #[{}] left on variant {}: must be a compile error", attr, d.vars[k].name));
+    c.checks += 1;
+    match build_and_run_batch(&src, false) {
+        Ok(_) => Err(format!("a declaration with the unknown attribute #[{}] on a variant compiled:\n{}", attr, render_attr(&d))),
+        Err(e) => {
+            if e.contains("cannot find attribute") || e.contains("error") {
+                Ok(())
+            } else {
+                Err(format!("build failed for an unexpected reason:\n{}", e.lines().take(30).collect::<Vec<_>>().join("\n")))
+            }
+        }
+    }
+}
+
+pub const STAGE_COMPILED: Stage = Stage { name: "compiled_batch", f: stage_compiled };
+pub const STAGE_REJECT: Stage = Stage { name: "rustc_rejects_unknown_attribute", f: stage_rustc_reject };
